@@ -80,13 +80,40 @@ def scan_callers(repo, method, allowed, what):
 
 def scan_ram_writers_refresh(repo):
     """C08 frame obligation: RAM may be written behind the bus only by functions that afterwards
-    re-establish the screen shadow (refresh_memory_dependent_devices)"""
+    re-establish the screen shadow (refresh_memory_dependent_devices), and the refresh is not
+    conditional on anything the write is not conditional on: the block holding the refresh call
+    encloses (or is) the block holding the write (syntactic post-dominance; early exits through
+    `?`/`return Err` are the loaders' error paths and are excluded)"""
     import glob, sys
     sys_path = os.path.join(VERIF, "vx")
     if sys_path not in sys.path:
         sys.path.insert(0, sys_path)
     from rustlex import mask, match_close
-    ob = "scan::every user of ram_page_data_mut/force_write calls refresh_memory_dependent_devices afterwards"
+    ob = ("scan::every user of ram_page_data_mut/force_write calls refresh_memory_dependent_devices afterwards, "
+          "in a block enclosing the write")
+
+    def blocks(msk, b, pos):
+        """open-brace positions of the blocks enclosing `pos` inside the body starting at `b`"""
+        st = []
+        for i in range(b, pos):
+            ch = msk[i]
+            if ch == "{":
+                st.append(i)
+            elif ch == "}":
+                st.pop()
+        return st
+
+    def refreshed_after(msk, b, e, pos):
+        """is there a refresh call after `pos` whose enclosing blocks are a prefix of those of `pos`"""
+        here = blocks(msk, b, pos)
+        any_call = False
+        for r in re.finditer(r"\brefresh_memory_dependent_devices\s*\(", msk[pos:e]):
+            any_call = True
+            rb = blocks(msk, b, pos + r.start())
+            if rb == here[:len(rb)]:
+                return True, True
+        return False, any_call
+
     bad, seen = [], 0
     for path in glob.glob(os.path.join(repo, "rustzx-core/src", "**", "*.rs"), recursive=True):
         if path.endswith("zx/memory.rs"):
@@ -99,29 +126,34 @@ def scan_ram_writers_refresh(repo):
             if not fns:
                 continue
             f = fns[-1]
+            name = f.group(1)
             b = msk.find("{", f.end())
             e = match_close(msk, b)
-            rest = msk[m.end():e]
-            if "refresh_memory_dependent_devices" not in rest:
-                # helper functions whose every caller refreshes are accepted one level up
-                name = f.group(1)
-                callers_ok = True
-                ncall = 0
-                for c in re.finditer(r"\b" + re.escape(name) + r"\s*\(", msk):
-                    if c.start() == f.start(1):
-                        continue
-                    ncall += 1
-                    cf = [x for x in re.finditer(r"\bfn\s+(\w+)", msk[:c.start()])][-1]
-                    cb = msk.find("{", cf.end())
-                    ce = match_close(msk, cb)
-                    if "refresh_memory_dependent_devices" not in msk[c.end():ce]:
-                        callers_ok = False
-                if not (ncall and callers_ok):
-                    bad.append("%s::%s" % (os.path.relpath(path, repo), name))
+            ok, any_call = refreshed_after(msk, b, e, m.end())
+            if ok:
+                continue
+            if any_call:
+                bad.append("%s::%s (the refresh is conditional / in a block that does not enclose the write)"
+                           % (os.path.relpath(path, repo), name))
+                continue
+            # helper functions whose every caller refreshes are accepted one level up
+            callers_ok = True
+            ncall = 0
+            for c in re.finditer(r"\b" + re.escape(name) + r"\s*\(", msk):
+                if c.start() == f.start(1):
+                    continue
+                ncall += 1
+                cf = [x for x in re.finditer(r"\bfn\s+(\w+)", msk[:c.start()])][-1]
+                cb = msk.find("{", cf.end())
+                ce = match_close(msk, cb)
+                if not refreshed_after(msk, cb, ce, c.end())[0]:
+                    callers_ok = False
+            if not (ncall and callers_ok):
+                bad.append("%s::%s" % (os.path.relpath(path, repo), name))
     if seen == 0:
         return dict(status="undecided", obligation=ob, detail="no RAM writer found (lost anchor)")
     if bad:
-        return dict(status="fail", obligation=ob, detail="RAM written behind the bus without refreshing the screen shadow in: %s" % sorted(set(bad)))
+        return dict(status="fail", obligation=ob, detail="RAM written behind the bus without (unconditionally) refreshing the screen shadow in: %s" % sorted(set(bad)))
     return dict(status="ok", obligation=ob, detail="")
 
 
@@ -644,8 +676,9 @@ PROPS = {
     ),
     "C17": dict(
         level="proof",
-        claim="Kani proofs (bit-precise, complete over the finite domains: 40 keys, 2x5 Sinclair controls, 7 compound keys, 8 Kempston bits, 4 mouse buttons, all i8 deltas, all prior matrix states) that every event operation changes exactly its own source's matrix bit / counter as the statement says, preserves the compound-key invariant (CAPS SHIFT held iff some compound key is held), and that the ULA read ANDs all three sources over the selected half-rows; histories follow by induction over these per-event obligations.",
+        claim="Kani proofs (bit-precise, complete over the finite domains: 40 keys, 2x5 Sinclair controls, 7 compound keys, 8 Kempston bits, 4 mouse buttons, all i8 deltas, all prior matrix states) that every event operation changes exactly its own source's matrix bit / counter as the statement says, preserves the compound-key invariant (CAPS SHIFT held iff some compound key is held), and that the ULA read ANDs all three sources over the selected half-rows (Kani on the real controller, and for every port / frame clock / machine by the Verus contract of the extracted real read_io: result == rows_and(high byte, keyboard, extended, sinclair) with EAR on bit 6); histories follow by induction over these per-event obligations.",
         note="Known finding: Sinclair joystick 2 DOWN maps to key 2 (pinned by an existing test, so recorded, not repaired). Assumes Kani stubs (sqrt; mixer/screen no-ops in the port-read harness). Emulator::send_* wrappers are one-line forwards (not separately contracted).",
+        verus=["ctl"],
         kani=[K_INPUT, K_READ_IO],
         explanation="input devices as per-event contracts + row-AND obligation of read_io",
     ),
@@ -661,8 +694,8 @@ PROPS = {
     ),
     "C07": dict(
         level="proof",
-        claim="write side: Verus proof on the extracted real write_io that for every port selecting exactly one device the named device changes as stated and every other device is unchanged, and the extender log grows iff it claims the port; floating_bus_value equals the statement's fetch-window function for all frame clocks. read side: Kani proof on the real controller for all 65536 ports x device presence x device state.",
-        note="Assumes: closure postcondition annotation (R-closure) for the extender claim; Kani stubs (sqrt, mixer.process, screen.process_clocks no-ops); read harness at an uncontended clock; ambiguous ports (two devices selected) are outside the statement and unconstrained.",
+        claim="write side: Verus proof on the extracted real write_io that for every port selecting exactly one device the named device changes as stated and every other device is unchanged, and the extender log grows iff it claims the port; floating_bus_value equals the statement's fetch-window function for all frame clocks. read side: Verus proof on the extracted real read_io, for every port, machine, device presence and every frame clock: a port selecting exactly one device returns that device's value (selected half-rows AND-ed with the tape EAR level on bit 6, mouse ports, AY read-back, Kempston state), the extender's log grows iff it claims the port and its answer is the result, a port no device claims returns the floating-bus byte of the T-state before the last one of the port cycle, and nothing but time changes; the earlier Kani proof on the real controller (all 65536 ports x device presence x device state, two clock situations) is kept as a second engine.",
+        note="Assumes: closure postcondition annotation (R-closure) for the extender claim in write_io; in read_io the three-line extender expression `self.io_extender.as_mut().and_then(|e| e.extends_port(port).then(|| e.read(port)))` is replaced by an assumed-contract call (R-opaque: and_then/then with a closure capturing &mut are outside the Verus subset; the expression text is pinned, a change to it makes the run undecided) - the Kani read harness executes the real expression; Kani stubs (sqrt, mixer.process, screen.process_clocks no-ops); ambiguous ports (two devices selected) are outside the statement and unconstrained.",
         verus=["ctl"],
         kani=[K_READ_IO],
         explanation="port decoding as contracts over the real write_io / read_io",
@@ -670,7 +703,7 @@ PROPS = {
     "C04": dict(
         level="proof",
         claim="Deductive proof (Verus, unbounded in T, address, port, paging state) that contention_clocks equals the statement's delay function and that every bus-wait method and both port-cycle halves advance emulated time by exactly the contended/uncontended amount; Kani proves the machine constants and the contended-bank table on the real tables.",
-        note="Assumes: extraction rules; tape/mixer/screen/border calls touch only their own struct; read_io's call structure (outside the Verus subset) is covered by Kani under C07; composition over an instruction's bus-cycle list is C03's.",
+        note="Assumes: extraction rules; tape/mixer/screen/border calls touch only their own struct; read_io's port-cycle timing is proved on the extracted real function with its extender expression replaced by an assumed-contract call (R-opaque, see C07); composition over an instruction's bus-cycle list is C03's.",
         verus=["ctl"],
         kani=[K_MACHINE],
         explanation="ULA contention: contention_clocks == ula_delay for all T; every wait_* advances total "
